@@ -55,6 +55,11 @@ type handler1 struct {
 	transactions     *transactions.TransactionStore
 	// for testing
 	mockupDialFunc func() net.Conn
+
+	// topicIDMutex guards topicIDsExhausted and makes newTopicID atomic
+	// (it is called from both receive loops).
+	topicIDMutex      sync.Mutex
+	topicIDsExhausted bool
 }
 
 const (
@@ -495,19 +500,25 @@ func (h *handler1) mqttReceiveLoop(ctx context.Context) error {
 }
 
 func (h *handler1) newTopicID() (uint16, error) {
-	topicID, overflow := h.topicID.Next()
-	if overflow {
+	h.topicIDMutex.Lock()
+	defer h.topicIDMutex.Unlock()
+
+	// The sequence signalizes the overflow only once and then starts again
+	// from the first ID. The TopicIDs already handed out must never be
+	// used for another topic => once exhausted, always exhausted.
+	if h.topicIDsExhausted {
 		return 0, ErrTopicIDsExhausted
 	}
 	for {
-		if _, ok := h.predefinedTopics.GetTopicName(h.clientID, topicID); !ok {
-			break
-		}
-		if topicID, overflow = h.topicID.Next(); overflow {
+		topicID, overflow := h.topicID.Next()
+		if overflow {
+			h.topicIDsExhausted = true
 			return 0, ErrTopicIDsExhausted
 		}
+		if _, ok := h.predefinedTopics.GetTopicName(h.clientID, topicID); !ok {
+			return topicID, nil
+		}
 	}
-	return topicID, nil
 }
 
 func (h *handler1) registerTopic(topic string) (uint16, error) {
